@@ -9,6 +9,7 @@ mod mon;
 mod props;
 mod rng;
 mod s3sim;
+mod volgen;
 
 use ev::{Ctx, Tier};
 
